@@ -45,4 +45,6 @@ var configs = map[string]config{
 		Assumptions: assume("for GoogleSafeBrowsing and Semantic the statement quantifies over the ordinary-web-URL grammar only; credentials are unreserved characters written literally and parameter names are read as non-empty (the empty-name case is the recorded finding KF-C17-empty-pair, DESIGN §7.7)", "a first parse that fails makes the case vacuous, except that URLs of the web grammar must be accepted")},
 	"C18": {Tests: "^TestC18$", QuickChecks: 30000, ThoroughChecks: 250000, QuickShards: 8, ThoroughShards: 16,
 		Assumptions: assume("equivalence classes are generated constructively: one abstract web URL, two independently drawn spellings using only the variations the statement lists; decoding-free profiles get only the subset the URL Standard itself normalises", "a dot segment inserted at the very end is only used when the URL ends in a slash anyway (otherwise it would add one, which is not a spelling difference)")},
+	"C02": {Tests: "^TestC02$", QuickChecks: 15000, ThoroughChecks: 150000, QuickShards: 8, ThoroughShards: 16,
+		Assumptions: assume("'any parser configuration constructible from the public options' means options given non-nil values of their parameter types and total callback functions; BasicParser with a state override is exercised only through the setters; SearchParams handles come from SearchParams() / Clone (DESIGN §7.8)", "termination is decided by a 20 s per-case watchdog whose suspicion is confirmed by re-running the single case in a fresh process with a 120 s limit; a time budget hit is otherwise inconclusive, never a violation", "arguments are bounded to about 16 KB")},
 }
